@@ -174,6 +174,7 @@ fn run_entry<C: Context<NumericTypes = DefaultNumericTypes> + ContextWithMutable
                 "Const" => Operator::Const { value: Value::Int(7) },
                 "VariableIdentifierWrite" => Operator::VariableIdentifierWrite { identifier: "x".to_string() },
                 "VariableIdentifierRead" => Operator::VariableIdentifierRead { identifier: "x".to_string() },
+                other if other.starts_with("FunctionIdentifier:") => Operator::FunctionIdentifier { identifier: other[19..].to_string() },
                 _ => Operator::FunctionIdentifier { identifier: "x".to_string() },
             };
             let mut node = build_operator_tree::<DefaultNumericTypes>("0").unwrap();
@@ -193,6 +194,8 @@ fn run_entry<C: Context<NumericTypes = DefaultNumericTypes> + ContextWithMutable
                         *child.operator_mut() = Operator::VariableIdentifierRead { identifier: "x".to_string() };
                     },
                     "FunctionIdentifier" => child = call,
+                    "Identical" => child = build_operator_tree::<DefaultNumericTypes>("same(7)").unwrap(),
+                    "TupleArgs" => child = build_operator_tree::<DefaultNumericTypes>(&format!("(c{}({}), c{}({}), c{}({}))", i, i, i, i, i, i)).unwrap(),
                     "Add" => {
                         *child.operator_mut() = Operator::Add;
                         child.children_mut().push(call);
@@ -389,6 +392,14 @@ fn apply_op(op: &str, ctx: &mut HashMapContext<DefaultNumericTypes>, out: &mut V
         "clone" => {
             let c2 = ctx.clone();
             *ctx = c2;
+        },
+        "clonefrom" => {
+            // b starts in a different state (another variable, opposite builtin switch), then b.clone_from(&ctx); b replaces ctx
+            let mut b = HashMapContext::<DefaultNumericTypes>::new();
+            b.set_value("zz__".to_string(), Value::Int(9)).unwrap();
+            b.set_builtin_functions_disabled(!ctx.are_builtin_functions_disabled()).unwrap();
+            b.clone_from(ctx);
+            *ctx = b;
         },
         _ => out.push(format!("badop {}", op)),
     }
